@@ -344,8 +344,8 @@ Lemma has_column_core : forall c a b, map col_core (t_columns a) = map col_core 
 Proof.
   intros c a b H. unfold has_column.
   rewrite <- (existsb_map c_name (fun n => String.eqb n c) (t_columns a)), <- (existsb_map c_name (fun n => String.eqb n c) (t_columns b)).
-  f_equal. assert (E : map c_name (t_columns a) = map fst (map fst (map fst (map col_core (t_columns a))))) by (rewrite !map_map; reflexivity).
-  assert (E2 : map c_name (t_columns b) = map fst (map fst (map fst (map col_core (t_columns b))))) by (rewrite !map_map; reflexivity).
+  f_equal. assert (E : map c_name (t_columns a) = map fst (map fst (map fst (map fst (map col_core (t_columns a)))))) by (rewrite !map_map; reflexivity).
+  assert (E2 : map c_name (t_columns b) = map fst (map fst (map fst (map fst (map col_core (t_columns b)))))) by (rewrite !map_map; reflexivity).
   rewrite E, E2, H. reflexivity.
 Qed.
 
@@ -374,6 +374,42 @@ Proof.
   repeat split; cbn [t_name t_columns t_constraints]; try assumption.
   - eapply update_first_col_core; try eassumption. intros c c' E. unfold col_core in *. cbn. congruence.
   - rewrite Hat, Hp, app_nil_r. apply Permutation_map. exact R3.
+Qed.
+
+Lemma existsb_perm {A} (p : A -> bool) : forall l1 l2, Permutation l1 l2 -> existsb p l1 = existsb p l2.
+Proof.
+  intros l1 l2 H. induction H; cbn [existsb]; try reflexivity.
+  - rewrite IHPermutation. reflexivity.
+  - destruct (p y), (p x); reflexivity.
+  - rewrite IHPermutation1. exact IHPermutation2.
+Qed.
+
+(* the ghost schema and the believed schema agree on "is an auto-increment key column" unless the column sits in a
+   pending auto-increment primary key *)
+Lemma pend_rel_find : forall P s v t, pend_rel P s v ->
+  (find_table t s = None /\ find_table t v = None) \/
+  (exists ts tv, find_table t s = Some ts /\ find_table t v = Some tv /\ trel P ts tv).
+Proof.
+  intros P s v t H. unfold find_table. induction H as [|a b s v Hab _ IH]; [left; split; reflexivity|].
+  cbn [find]. rewrite <- (trel_name P a b Hab). destruct (String.eqb (t_name a) t).
+  - right. exists a, b. split; [reflexivity|split; [reflexivity|exact Hab]].
+  - exact IH.
+Qed.
+Lemma pend_rel_auto : forall P s v t c, pend_rel P s v ->
+  mem_str c (auto_increment_columns (pend_of P t)) = false -> is_auto_col v t c = is_auto_col s t c.
+Proof.
+  intros P s v t c H Hp. unfold is_auto_col, constraints_of.
+  destruct (pend_rel_find P s v t H) as [[Fs Fv]|[ts [tv [Fs [Fv [R1 [R2 R3]]]]]]]; rewrite Fs, Fv; [reflexivity|].
+  assert (Hn : t_name ts = t) by (apply (find_table_in t s ts Fs)). rewrite Hn in R3.
+  unfold mem_str, auto_increment_columns in *.
+  rewrite (existsb_perm _ _ _ (Permutation_flat_map' _ _ _ R3)).
+  rewrite flat_map_app, existsb_app, Hp. symmetry. apply Bool.orb_false_r.
+Qed.
+Lemma simp_kind_auto_agree : forall P s v a, pend_rel P s v -> simp_kind_ok P v a = true -> modify_auto_agree v s a = true.
+Proof.
+  intros P s v a H Hk. unfold modify_auto_agree.
+  destruct a; cbn [modify_target]; try reflexivity; cbn [simp_kind_ok] in Hk; apply Bool.negb_true_iff in Hk;
+    rewrite (pend_rel_auto P s v table column H Hk); apply Bool.eqb_reflx.
 Qed.
 
 (* ---------- one step of the invariant, any supported kind ---------- *)
@@ -423,7 +459,7 @@ Proof.
     destruct (IH _ v1 s1 s' H1 Hr Ha) as [L [v' [GP [AV [RP RelP]]]]].
     destruct (sim_proved v (ghost_action a) Hsim v1 Av (pending_constraints a r)) as [st [G R]].
     exists (st :: L), v'. repeat split.
-    + cbn [gen_plan]. rewrite <- (gen_core_ext v s (pending_constraints a r) (pending_constraints a r) a (pend_rel_core P s v H)).
+    + cbn [gen_plan]. rewrite <- (gen_core_ext v s (pending_constraints a r) (pending_constraints a r) a (pend_rel_core P s v H) (simp_kind_auto_agree P s v a H Hk)).
       rewrite <- (gen_ghost_action v (pending_constraints a r) a). rewrite G. rewrite As. rewrite GP. reflexivity.
     + cbn [ghost_plan map apply_all]. rewrite Av. exact AV.
     + cbn [List.concat]. eapply run_app_ok; [exact R|exact RP].
@@ -447,14 +483,6 @@ Proof.
 Qed.
 
 (* ---------- with nothing pending the two catalogs are the same set of objects ---------- *)
-Lemma existsb_perm {A} (p : A -> bool) : forall l1 l2, Permutation l1 l2 -> existsb p l1 = existsb p l2.
-Proof.
-  intros l1 l2 H. induction H; cbn [existsb]; try reflexivity.
-  - rewrite IHPermutation. reflexivity.
-  - destruct (p y), (p x); reflexivity.
-  - rewrite IHPermutation1. exact IHPermutation2.
-Qed.
-
 Lemma generated_indep : forall fks K, fk_indep fks = true ->
   generated_indexes K fks
   = flat_map (fun f => if (nonempty (fk_cols f) && existsb (is_prefix (fk_cols f)) K)%bool then [] else [mkMIndex (fk_name f) (fk_cols f) false true]) fks.
